@@ -22,13 +22,11 @@ Definition t_ : str := S_ "t".
 Definition search_line (ks : list key) (mb : list smsg) : reply :=
   search_cmd (t_ :: S_ "SEARCH" :: fields (print_prog ks)) (to_msgs mb).
 Definition uid_search_line (ks : list key) (mb : list smsg) : reply :=
-  handle_uid_search (t_ :: S_ "UID" :: S_ "SEARCH" :: fields (print_prog ks)) (to_msgs mb).
+  uid_search_cmd (t_ :: S_ "UID" :: S_ "SEARCH" :: fields (print_prog ks)) (to_msgs mb).
 
 (** a well-formed program of class [c] whose SEARCH reply violates the specification *)
 Definition refutes (c : cls) (ks : list key) (mb : list smsg) : Prop :=
   wf_prog ks = true /\ classify_line ks mb = Some c /\ reply_ok (search_line ks mb) (spec_search ks mb) = false.
-Definition refutes_uid (c : cls) (ks : list key) (mb : list smsg) : Prop :=
-  wf_prog ks = true /\ classify_uid_line ks = Some c /\ reply_ok (uid_search_line ks mb) (spec_uid_search ks mb) = false.
 
 Ltac witness ks := exists ks, wit_mb; vm_compute; repeat split; reflexivity.
 
@@ -58,10 +56,18 @@ Lemma refuted_text_atom_sent_date : exists ks mb, refutes CTextAtom ks mb.
 Proof. witness [KDate true COn (S_ "3", 1, S_ "2006")]. Qed.
 Lemma refuted_quoted_space : exists ks mb, refutes CQuotedSpace ks mb.
 Proof. witness [KHdr HSubject (S_ "Hello  World")]. Qed.
-Lemma refuted_uid_search_single : exists ks mb, refutes_uid CUidSingle ks mb.
-Proof. witness [KUid [SOne (SNum (S_ "2"))]]. Qed.
-Lemma refuted_uid_search_ignores_keys : exists ks mb, refutes_uid CUidIgnoresKeys ks mb.
-Proof. witness [KUn FSeen]. Qed.
+(** regression (fix "UID SEARCH runs the SEARCH evaluator"): uid.handleUIDSearch
+    was a separate implementation that evaluated only ALL and the first UID a:b
+    (UID SEARCH UNSEEN returned every UID, UID SEARCH UID 2 nothing); the former
+    witnesses now meet the specification, and a class of SEARCH is the same class
+    of UID SEARCH *)
+Lemma uid_search_repaired :
+  uid_search_line [KUn FSeen] wit_mb = ROk [2; 3]
+  /\ reply_ok (uid_search_line [KUn FSeen] wit_mb) (spec_uid_search [KUn FSeen] wit_mb) = true
+  /\ uid_search_line [KUid [SOne (SNum (S_ "2"))]] wit_mb = ROk [2]
+  /\ reply_ok (uid_search_line [KUid [SOne (SNum (S_ "2"))]] wit_mb) (spec_uid_search [KUid [SOne (SNum (S_ "2"))]] wit_mb) = true
+  /\ uid_search_line [KNot (KHas FSeen); KHdr HFrom (S_ "bob")] wit_mb = ROk [2].
+Proof. vm_compute. repeat split; reflexivity. Qed.
 
 (** regression (fix bb43d4f): OR followed by one operand with argument and
     nothing else used to read tokens[i] out of range (the process ended); the
